@@ -56,6 +56,8 @@ if r.returncode != 0:
     print("SEEDRUN setup failed: worktree: " + r.stderr); sys.exit(2)
 if patch != "-":
     r = sh("git -C %s apply %s" % (ALTREPO, os.path.abspath(patch)))
+    if r.returncode != 0:               # the tree has moved on since the change was made: merge it
+        r = sh("git -C %s apply --3way %s" % (ALTREPO, os.path.abspath(patch)))
     if r.returncode != 0:
         print("SEEDRUN setup failed: patch does not apply: " + r.stderr); cleanup(); sys.exit(2)
 # copy /verif (no .git, no evidence history needed); keep build caches
